@@ -46,7 +46,7 @@ def run(ctx):
             ctx.report({"kind": m["kind"]}, "JsonSafeArray shape %s shift %s (%s view): %s" % (m.get("shape"), m.get("shift"), m.get("layout"), m["detail"]), m)
     # requests
     reqs = os.path.join(ctx.scratch, "requests.ndjson")
-    rc, out, err = run_vh(ctx, ["jsonrun", "gen", classes, reqs, "-per", "2" if ctx.quick else "8"])
+    rc, out, err = run_vh(ctx, ["jsonrun", "gen", classes, reqs, "-per", "2" if ctx.quick else "40"])
     if rc != 0:
         raise Infra("jsonrun gen failed: " + err[-2000:])
     total = last_json(out)["evaluations"]
